@@ -124,6 +124,32 @@ def discharge_all(obligations, timeout_s=20, confirm=False, workers=None):
     return results
 
 
+def bounded_refutation(ob, timeout_s=10):
+    """An obligation the solvers left open: look for a *small* counterexample (every sequence and
+    string constant bounded).  A `sat` here is a genuine `sat` of the obligation (the bounds only
+    restrict the search); anything else leaves it undecided."""
+    for text, extra, bound in bounded_queries(ob):
+        r = race(text, timeout_s)
+        if r['verdict'] == 'sat':
+            r['bounded_search'] = bound
+            return r, extra
+    return None, None
+
+
+def bounded_queries(ob):
+    """(smt2 text, extra constraints, bound) for bounds 1..3 -- built in the calling thread (the z3
+    API is not thread-safe; only the solver processes run concurrently)"""
+    consts = free_consts(list(ob.pc) + [ob.goal])
+    out = []
+    for bound in (1, 2, 3):
+        extra = []
+        for c in consts:
+            if z3.is_seq(c):
+                extra.append(z3.Length(c) <= (bound + 3 if z3.is_string(c) else bound))
+        out.append((smt2_of(list(ob.pc) + extra, ob.goal), extra, bound))
+    return out
+
+
 def free_consts(terms):
     seen, out = set(), {}
     stack = list(terms)
